@@ -38,6 +38,9 @@ type WPCase struct {
 	Footer string   `json:"footer"`      // "" = no footer part
 	Left   string   `json:"left_header"` // ODT only: text of style:header-left ("" = none)
 	Option string   `json:"option"`      // both | headers | footers
+	// Pad: the header and footer lines stand between tab stops ("tabs": a tab in front and behind, as Word aligns
+	// a centred header) or preserved blanks ("blanks"); the body paragraphs that repeat them do not
+	Pad string `json:"pad,omitempty"`
 	// Seq: exclusion options asked of ONE format-level reader (docx.Reader / odt.Reader) one after the other
 	// (none | headers | footers | both); every answer must be the one a fresh reader gives
 	Seq []string `json:"seq,omitempty"`
@@ -66,11 +69,20 @@ func (c WPCase) build() ([]byte, string, error) {
 	for _, b := range c.Body {
 		d.Blocks = append(d.Blocks, wpmodel.Block{Kind: wpmodel.BPara, Runs: wpPara(c.resolve(b))})
 	}
+	padded := func(s string) wpmodel.Para {
+		switch c.Pad {
+		case "tabs":
+			return wpmodel.Para{wpmodel.Run{Items: []wpmodel.Inline{{Kind: wpmodel.KTab}, {Kind: wpmodel.KText, Text: s}, {Kind: wpmodel.KTab}}}}
+		case "blanks":
+			return wpmodel.Para{wpmodel.Run{Items: []wpmodel.Inline{{Kind: wpmodel.KSpace, N: 2}, {Kind: wpmodel.KText, Text: s}, {Kind: wpmodel.KSpace, N: 1}}}}
+		}
+		return wpPara(s)
+	}
 	if c.Header != "" {
-		d.Header = []wpmodel.Para{wpPara(c.Header)}
+		d.Header = []wpmodel.Para{padded(c.Header)}
 	}
 	if c.Footer != "" {
-		d.Footer = []wpmodel.Para{wpPara(c.Footer)}
+		d.Footer = []wpmodel.Para{padded(c.Footer)}
 	}
 	if c.Format == "docx" {
 		b, err := docxw.Write(d, docxw.Options{})
@@ -221,6 +233,7 @@ func checkWP(c WPCase) error {
 
 func genWP(t *rapid.T) WPCase {
 	c := WPCase{Format: rapid.SampledFrom([]string{"docx", "odt"}).Draw(t, "format"), Option: rapid.SampledFrom([]string{"both", "headers", "footers"}).Draw(t, "option")}
+	c.Pad = rapid.SampledFrom([]string{"", "", "tabs", "blanks"}).Draw(t, "pad")
 	if rapid.IntRange(0, 4).Draw(t, "hasHeader") > 0 {
 		c.Header = "Running header " + rapid.StringMatching(`[A-Z][a-z]{3,8}`).Draw(t, "hw")
 	}
